@@ -65,7 +65,7 @@ def run(tier, seed):
     for p in crashed[:5]:
         chk.violation('compiler crashed on a regex program: %s: %s' % (p.src.strip().splitlines()[-2], p.res.get('msg')),
                       {'source': p.src, 'args': p.args, 'outcome': p.res['outcome'], 'msg': p.res.get('msg'), 'tb': p.res.get('tb')}, None)
-    st, kinds, cases = c01.run_conform(chk, pairs, 8 if quick else 12, 400 if quick else 3000, 'regex')
+    st, kinds, cases = c01.run_conform(chk, pairs, 8 if quick else 12, 1600 if quick else 9000, 'regex')
     # C stage: the emitted matcher of a subset, every state x every byte 0..255 (+ end), validated against the machine (StepTrace)
     import shutil
     from props import c06
